@@ -6,8 +6,8 @@ From updog Require Import Conc LockPolicy.
 From Gen Require Import LockFacts.
 Local Open Scope list_scope.
 
-Definition policy_C18_mem : policy := Eval vm_compute in LockPolicy.policy_C18_mem gen_mutexes gen_methods gen_external gen_selfsync gen_funs.
-Definition policy_C18_big : policy := Eval vm_compute in LockPolicy.policy_C18_big gen_mutexes gen_methods gen_external gen_selfsync gen_funs.
+Definition policy_C18_mem : policy := Eval vm_compute in choose_policy (LockPolicy.policy_C18_mem gen_mutexes gen_methods gen_external gen_selfsync gen_funs) gen_funs ["IndexWriter.AddRow"] gen_all_mutexes.
+Definition policy_C18_big : policy := Eval vm_compute in choose_policy (LockPolicy.policy_C18_big gen_mutexes gen_methods gen_external gen_selfsync gen_funs) gen_funs ["BigIndexWriter.AddRow"] gen_all_mutexes.
 Definition mem_mtx : string := Eval vm_compute in mutex_of gen_mutexes "IndexWriter".
 Definition big_mtx : string := Eval vm_compute in mutex_of gen_mutexes "BigIndexWriter".
 Definition funs_mem := reachable_funs policy_C18_mem gen_funs ["IndexWriter.AddRow"].
